@@ -11,7 +11,7 @@ def bracket(rng, gates):
     if len(gates) == 1:
         return gates[0]
     k = rng.randint(1, len(gates) - 1)
-    return (rng.choice(["mul", "mulassign", "append", "pushsingles", "pushfront", "mulsingles", "mulrefmut"]), bracket(rng, gates[:k]), bracket(rng, gates[k:]))
+    return (rng.choice(["mul", "mulassign", "append", "pushsingles", "pushfront", "mulsingles", "mulrefmut", "pushback", "wrapped"]), bracket(rng, gates[:k]), bracket(rng, gates[k:]))
 
 
 def cases(rng, tier):
